@@ -193,6 +193,8 @@ func (f *FailoverOf[V]) Get(
 
 	if v, freshEnough := f.freshEnough(err); freshEnough {
 		if err = f.refreshStale(ctx, key, v); err != nil {
+			keyLock.err = err
+
 			return val, err
 		}
 
